@@ -131,7 +131,7 @@ impl Property for C05 {
          oracle = reference evaluator of the statement over exact rationals; non-trivial = (>=1 active and >=1 removed constraint) or rejection case or state omitting an irrelevant variable; distinct = sha256(instance, state)"
     }
     fn required_labels(&self) -> Vec<String> {
-        ["flag-relaxed!=flag-all", "tolerance-inside", "tolerance-outside", "bound-reject", "bound-tolerated", "missing-used", "irrelevant-filled", "dependency", "fixed-variable", "removed-constraint", "feasible=true", "feasible=false", "state-has-foreign-id", "state-repeats-fixed-variable", "dependency-on-fixed", "big-bound-on", "big-bound-steps-outside", "big-linear-function", "missing-variable-used-only-by-a-dependency", "bound-case-on-fixed-variable"]
+        ["flag-relaxed!=flag-all", "tolerance-inside", "tolerance-outside", "bound-reject", "bound-tolerated", "missing-used", "irrelevant-filled", "dependency", "fixed-variable", "removed-constraint", "feasible=true", "feasible=false", "state-has-foreign-id", "state-repeats-fixed-variable", "dependency-on-fixed", "big-bound-on", "big-bound-steps-outside", "big-linear-function", "missing-variable-used-only-by-a-dependency", "bound-case-on-fixed-variable", "sweep=long-dependency-chain"]
             .iter()
             .map(|s| s.to_string())
             .collect()
@@ -141,6 +141,53 @@ impl Property for C05 {
             Tier::Quick => 300_000,
             Tier::Thorough => 8_000_000,
         }
+    }
+    fn sweep_len(&self, _tier: Tier) -> usize {
+        2
+    }
+    fn sweep_description(&self) -> Option<String> {
+        Some("dependent variables defined through a chain of 1100 (ids decreasing along the chain) / 300 (increasing) definitions, each referring to the next, as that many successive substitutions leave them".into())
+    }
+    fn sweep_case(&self, _tier: Tier, i: usize, ctx: &mut Ctx) -> PResult {
+        // r_t := u_t + r_{t+1} (t = 0 .. n-1), r_n := u_n: a backward recursion over many periods. The reported state
+        // must contain every r_t = u_t + ... + u_n, whatever the ids and however long the chain.
+        let decreasing = i == 0;
+        let n: u64 = if decreasing { 1100 } else { 300 };
+        ctx.label("sweep=long-dependency-chain");
+        ctx.nontrivial();
+        ctx.fp_dbg(&("long-chain", n, decreasing));
+        ctx.sample_with(|| json!({"sweep": "long dependency chain", "length": n, "ids": if decreasing { "smaller id defined through larger" } else { "larger id defined through smaller" }}));
+        let rid = |t: u64| if decreasing { 100_000 + t } else { 100_000 + (n - t) };
+        let mut inst = v1::Instance::default();
+        inst.sense = SENSE_MIN;
+        let mut state = v1::State::default();
+        for t in 0..=n {
+            let mut u = v1::DecisionVariable::default();
+            u.id = t;
+            u.kind = KIND_CONTINUOUS;
+            inst.decision_variables.push(u);
+            state.entries.insert(t, ((t % 7) as f64) - 3.0);
+            let mut r = v1::DecisionVariable::default();
+            r.id = rid(t);
+            r.kind = KIND_CONTINUOUS;
+            inst.decision_variables.push(r);
+            let def = if t == n { crate::mk::linear(vec![(t, 1.0)], 0.0) } else { crate::mk::linear(vec![(t, 1.0), (rid(t + 1), 1.0)], 0.0) };
+            inst.decision_variable_dependency.insert(rid(t), crate::mk::flin(def));
+        }
+        inst.objective = Some(crate::mk::flin(crate::mk::linear(vec![(0, 1.0)], 0.0)));
+        let (sol, _) = match inst.evaluate(&state) {
+            Ok(x) => x,
+            Err(e) => return fail("C05/long-chain/rejected-valid-state", format!("a chain of {n} dependent definitions (acyclic, every input has a value) was rejected: {e:#}")),
+        };
+        let st = sol.state.unwrap_or_default();
+        let mut acc = 0.0f64;
+        for t in (0..=n).rev() {
+            acc += ((t % 7) as f64) - 3.0;
+            if st.entries.get(&rid(t)) != Some(&acc) {
+                return fail("C05/long-chain/state-value", format!("dependent variable r_{t} (id {}) is reported as {:?}, its definition gives {acc}", rid(t), st.entries.get(&rid(t))));
+            }
+        }
+        Ok(())
     }
     fn tape_max(&self) -> usize {
         640
